@@ -140,6 +140,23 @@ func (c *fctx) callStmt(o *out, ind int, call *ast.CallExpr, lhs []ast.Expr, isD
 	}
 }
 
+// envHole marks where the environment argument of a loop function goes; whether the loop needs one
+// (its body acts on the world) is known only after the body is translated.
+const envHole = "«E?»"
+
+func fillEnv(b *out, eff bool) {
+	for i, l := range b.lines {
+		b.lines[i] = fillHole(l, eff)
+	}
+}
+
+func fillHole(s string, eff bool) string {
+	if eff {
+		return strings.ReplaceAll(s, " "+envHole, " E")
+	}
+	return strings.ReplaceAll(s, " "+envHole, "")
+}
+
 // loopVars: state (assigned, declared before the body) and captured (only read) variables.
 func (c *fctx) loopVars(body ast.Node, extra []ast.Node, bodyPos token.Pos, bound map[*types.Var]bool) (state, captured []*types.Var) {
 	isState := map[*types.Var]bool{}
@@ -175,6 +192,9 @@ func (c *fctx) loopVars(body ast.Node, extra []ast.Node, bodyPos token.Pos, boun
 		state = append(state, v)
 	}
 	for v := range isCap {
+		if dropped(v.Type()) { // contexts, loggers: carry nothing the translation computes with
+			continue
+		}
 		captured = append(captured, v)
 	}
 	sort.Slice(state, func(i, j int) bool { return state[i].Pos() < state[j].Pos() })
@@ -256,7 +276,7 @@ func (c *fctx) forStmt(o *out, ind int, t *ast.ForStmt) {
 		}
 		return tuple(snames)
 	}
-	rec := "Gen." + name + " " + strings.Join(cnames, " ")
+	rec := "Gen." + name + " " + envHole + " " + strings.Join(cnames, " ")
 	lc.next = func(o *out, ind int) {
 		if t.Post != nil {
 			c.stmt(o, ind, t.Post)
@@ -266,6 +286,8 @@ func (c *fctx) forStmt(o *out, ind int, t *ast.ForStmt) {
 	b := &out{}
 	prev := c.loop
 	c.loop = lc
+	wasEff := c.fi.effectful
+	c.fi.effectful = false
 	for _, n := range snames {
 		b.emit(2, "let mut %s := %s", n, n)
 	}
@@ -276,21 +298,29 @@ func (c *fctx) forStmt(o *out, ind int, t *ast.ForStmt) {
 	c.block(b, 2, t.Body.List)
 	lc.next(b, 2)
 	c.loop = prev
+	bodyEff := c.fi.effectful
+	c.fi.effectful = wasEff || bodyEff
+	envPar, monad := "", "R"
+	if bodyEff {
+		envPar, monad = fmt.Sprintf(" {σ : Type} (E : %s σ)", c.envName()), "StateT σ R"
+	}
+	rec = fillHole(rec, bodyEff)
+	fillEnv(b, bodyEff)
 	var sb strings.Builder
-	fmt.Fprintf(&sb, "def %s", name)
+	fmt.Fprintf(&sb, "def %s%s", name, envPar)
 	for i := range cnames {
 		fmt.Fprintf(&sb, " (%s : %s)", cnames[i], ctypes[i])
 	}
-	fmt.Fprintf(&sb, " : Nat → %s → R %s\n", sigma, outT)
+	fmt.Fprintf(&sb, " : Nat → %s → %s %s\n", sigma, monad, outT)
 	fmt.Fprintf(&sb, "  | 0, _ => throw (Err.panic \"fuel:%s\")\n", name)
 	fmt.Fprintf(&sb, "  | fuel + 1, %s => do\n", tuple(snames))
 	if len(snames) == 0 {
 		sb.Reset()
-		fmt.Fprintf(&sb, "def %s", name)
+		fmt.Fprintf(&sb, "def %s%s", name, envPar)
 		for i := range cnames {
 			fmt.Fprintf(&sb, " (%s : %s)", cnames[i], ctypes[i])
 		}
-		fmt.Fprintf(&sb, " : Nat → Unit → R %s\n", outT)
+		fmt.Fprintf(&sb, " : Nat → Unit → %s %s\n", monad, outT)
 		fmt.Fprintf(&sb, "  | 0, _ => throw (Err.panic \"fuel:%s\")\n", name)
 		fmt.Fprintf(&sb, "  | fuel + 1, _ => do\n")
 	}
@@ -364,13 +394,15 @@ func (c *fctx) rangeStmt(o *out, ind int, t *ast.RangeStmt) {
 		}
 		return tuple(snames)
 	}
-	rec := strings.TrimSpace("Gen." + name + " " + strings.Join(cnames, " "))
+	rec := strings.TrimSpace("Gen." + name + " " + envHole + " " + strings.Join(cnames, " "))
 	lc.next = func(o *out, ind int) {
 		o.emit(ind, "return (← %s __rest (__i + 1) %s)", rec, tuple(snames))
 	}
 	b := &out{}
 	prev := c.loop
 	c.loop = lc
+	wasEff := c.fi.effectful
+	c.fi.effectful = false
 	for _, n := range snames {
 		b.emit(2, "let mut %s := %s", n, n)
 	}
@@ -380,8 +412,16 @@ func (c *fctx) rangeStmt(o *out, ind int, t *ast.RangeStmt) {
 	c.block(b, 2, t.Body.List)
 	lc.next(b, 2)
 	c.loop = prev
+	bodyEff := c.fi.effectful
+	c.fi.effectful = wasEff || bodyEff
+	envPar, monad := "", "R"
+	if bodyEff {
+		envPar, monad = fmt.Sprintf(" {σ : Type} (E : %s σ)", c.envName()), "StateT σ R"
+	}
+	rec = fillHole(rec, bodyEff)
+	fillEnv(b, bodyEff)
 	var sb strings.Builder
-	fmt.Fprintf(&sb, "def %s", name)
+	fmt.Fprintf(&sb, "def %s%s", name, envPar)
 	for i := range cnames {
 		fmt.Fprintf(&sb, " (%s : %s)", cnames[i], ctypes[i])
 	}
@@ -389,7 +429,7 @@ func (c *fctx) rangeStmt(o *out, ind int, t *ast.RangeStmt) {
 	if len(snames) == 0 {
 		pat = "_"
 	}
-	fmt.Fprintf(&sb, " : List %s → Int → %s → R %s\n", elemT, sigma, outT)
+	fmt.Fprintf(&sb, " : List %s → Int → %s → %s %s\n", elemT, sigma, monad, outT)
 	fmt.Fprintf(&sb, "  | [], _, %s => pure %s\n", pat, lc.done())
 	fmt.Fprintf(&sb, "  | %s :: __rest, __i, %s => do\n", valName, pat)
 	for _, l := range b.lines {
